@@ -64,6 +64,31 @@ def h_check_values(ctx):
            and_(r[0] == y, r[1] == m, r[2] == d, r[3] == 0, r[4] == 0, r[5] == 0))
 
 
+SHORT = ["Jan", "Feb", "Mar", "Apr", "May", "Jun", "Jul", "Aug", "Sep", "Oct", "Nov", "Dec"]
+LONG = ["January", "February", "March", "April", "May", "June", "July", "August", "September", "October",
+        "November", "December"]
+
+
+@P.harness("_check_values/month-names-accept-iff-valid",
+           cases=[dict(k=k, form=f) for k in range(1, 13) for f in ("short", "long", "lower", "UPPER-padded")],
+           functions=["pymeeus.Epoch:Epoch._check_values", "pymeeus.Epoch:Epoch.get_month"], crosscheck=3)
+def h_check_values_names(ctx, k, form):
+    name = {"short": SHORT[k - 1], "long": LONG[k - 1], "lower": LONG[k - 1].lower(),
+            "UPPER-padded": "  " + SHORT[k - 1].upper() + " "}[form]
+    y = ctx.int("y", sample=(-4800, 6000))
+    d = ctx.int("d", sample=(-1, 33))
+    ctx.assume(not_(and_(y == 1582, k == 10, d >= 5, d <= 14)))
+    e = epoch_obj(ctx)
+    try:
+        r = ctx.call(EPOCH + "._check_values", e, y, name, d)
+    except PyRaise as ex:
+        ctx.vc("raises only ValueError", ex.cls == "ValueError")
+        ctx.vc("raises only for a day the calendar lacks", not_(civil_valid(y, k, d)))
+        return
+    ctx.vc("returns only for a civil day", civil_valid(y, k, d))
+    ctx.vc("month name resolved to its number", and_(r[0] == y, r[1] == k, r[2] == d))
+
+
 # ---- 3. JDE -> date is the inverse (cut: alpha is the Gregorian century count)
 def _cuts_get_date():
     def cut_alpha(it, frame):
